@@ -124,6 +124,25 @@ template <class T> static void affine (Gen<T>& g)
     emitM<T> ("affine", a);
     Matrix33<T> b = a; b[2][2] = std::nextafter ((T) 1, (T) 2); emitM<T> ("affine+ulp", b);
     b = a; b[(int) g.rng.below (2)][2] = (T) std::ldexp (1.0, -(std::numeric_limits<T>::digits - 2)); emitM<T> ("affine+eps-col", b);
+    // exactly singular AFFINE matrices (the fast path): linear block of rank 0 (a zero scale), rank 1 (every cofactor is
+    // exactly zero) and rank n-1, on small integers so that all products are exact; the translation row is not zero
+    for (int rank = 0; rank < 3; ++rank)
+    {
+        Matrix44<T> sm; Matrix33<T> s3;
+        T u[3], w[3], u2[3], w2[3];
+        for (int i = 0; i < 3; ++i) { u[i] = (T) g.rng.range (1, 4) * (g.rng.below (2) ? T (1) : T (-1)); w[i] = (T) g.rng.range (1, 4) * (g.rng.below (2) ? T (1) : T (-1)); u2[i] = (T) g.rng.range (-3, 3); w2[i] = (T) g.rng.range (-3, 3); }
+        for (int i = 0; i < 3; ++i) for (int j = 0; j < 3; ++j) sm[i][j] = rank == 0 ? T (0) : u[i] * w[j] + (rank == 2 ? u2[i] * w2[j] : T (0));
+        for (int j = 0; j < 3; ++j) { sm[3][j] = (T) g.rng.range (-5, 5); sm[j][3] = 0; }
+        if (sm[3][0] == 0) sm[3][0] = 3;
+        sm[3][3] = 1;
+        emitM<T> ("affine-singular", sm);
+        if (rank < 2)
+        {
+            for (int i = 0; i < 2; ++i) for (int j = 0; j < 2; ++j) s3[i][j] = rank == 0 ? T (0) : u[i] * w[j];
+            s3[2][0] = (T) g.rng.range (1, 5); s3[2][1] = (T) g.rng.range (-5, 5); s3[0][2] = s3[1][2] = 0; s3[2][2] = 1;
+            emitM<T> ("affine-singular", s3);
+        }
+    }
     // projective with a clearly non-zero last column and zero translation
     b = a; b[1][2] = (T) 0.5; b[2][1] = 0; emitM<T> ("projective", b);
     b = a; b[0][2] = (T) -0.25; b[2][0] = 0; emitM<T> ("projective", b);
